@@ -2,7 +2,7 @@
     what the implementation (goatcore, or the real /bin/sh for the model-validation cases) did.
       CKey / CSetAll   envs.Environments.Set / SetAll           vs  env_set / env_set_all
       CSsh / CDcmd*    the bytes of the generated start-up script vs  ssh_script / dcmd_script
-                       (the environment order and the random tag are parsed out of the script by
+                       (the environment order - and for dcmd's certificate block the random tag - are parsed out of the script by
                         the harness and handed to the model; the WHOLE script is compared)
       CSh / CShCanary  what the real /bin/sh did with a script    vs  the mini-sh [sh_run]. *)
 From GC Require Import Common.Base Model.Shell.
@@ -19,7 +19,7 @@ Inductive case :=
     (* Set(k, "x") on a fresh Environments returned nil *)
 | CSetAll (pre kvs : env) (ok : bool) (all : env)
     (* after Set of every pair of [pre] (all valid): SetAll(kvs) returned nil = [ok]; All() afterwards *)
-| CSsh (e : env) (tag entry script : bytes) (r : shres)
+| CSsh (e : env) (entry script : bytes) (r : shres)
     (* [script] = what sshsb produced for [e] (in script order) and [entry]; [r] = what /bin/sh did with it *)
 | CDcmd (e : env) (tag pub sec : bytes) (ok : bool) (script probes : bytes) (r : shres)
     (* [r] = what /bin/sh did with [script ++ probes] *)
@@ -68,8 +68,8 @@ Definition check (c : case) : bool :=
     | Err => negb ok && same_map m0 all
     | Panic => false
     end
-  | CSsh e tag entry script r =>
-    bytes_eqb (ssh_script e tag entry) script && go_tag tag && tag_fresh tag e && check_sh script r
+  | CSsh e entry script r =>
+    bytes_eqb (ssh_script e entry) script && check_sh script r
   | CDcmd e tag pub sec ok script probes r =>
     match dcmd_script e tag pub sec with
     | Ok s => ok && bytes_eqb s script && go_tag tag && check_sh (script ++ probes) r
